@@ -1,6 +1,7 @@
 package c09own
 
 import (
+	"math"
 	"testing"
 
 	"pgregory.net/rapid"
@@ -23,7 +24,10 @@ func genBase(combs []string) func(t *rapid.T) fk.Case {
 			}
 		}
 		n := len(c.Input)
-		c.N = rapid.SampledFrom([]int{1, 2, 3, n, n + 1, 0}).Draw(t, "n")
+		c.N = rapid.SampledFrom([]int{1, 2, 3, n, n + 1, 0, math.MaxInt}).Draw(t, "n")
+		if c.N == math.MaxInt && c.Comb == "SampleStream" {
+			c.N = n + 1 // the Sample functions are documented to use O(k) space
+		}
 		c.EWraps = rapid.SampledFrom([]int{0, 0, 0, 1, 2}).Draw(t, "ewraps")
 		if c.N < 1 && (c.Comb == "Chunk" || c.Comb == "Batch") {
 			c.N = 1
